@@ -101,6 +101,15 @@ CLAIMED["C14"] = ("Partial proof of the gates that keep a wrong key from coming 
  "Trusted: math/big and internal/bigmod ghost-valued contracts, encoding/asn1.Unmarshal, crypto/elliptic, ecdsa.PublicKey.Equal, cryptobyte readers.",
  "DESIGN.md §0.2, §4 C14")
 
+CLAIMED["C10"] = ("Partial proof at the protocol-glue level, over ASSUMED abstract pairing-group operations (ghost element values for G1/G2/GT, PAIRING/GTMUL/G1MUL uninterpreted) and an assumed hash-to-range: "
+ "SM9 Verify returns true only for a 65-byte uncompressed S, h in [1, n-1] and h == H2(M || w) with w = e(S, P_uid) * g^h, and hashes exactly M followed by the 384-byte encoding of w; "
+ "Sign computes w = g^r for the sampled r (C12), h = H2(M || w), l = (r - h) mod n with a retry on l == 0, S = [l]dsA and returns the 32-byte encoding of h; the decryption core splits K into "
+ "K1 || K2 at the option's key size, MACs C2 || K2, compares with C3 in constant time and decrypts with K1 only after a successful comparison; the raw and ASN.1 ciphertext parsers, block-mode "
+ "options and key decoders return a value or an error for every input (shared with C13). Not decided: completeness (honest signatures/ciphertexts verify/decrypt - pairing algebra), key exchange, "
+ "the hash-to-range function body (H1/H2 over SM3; SetOverflowedBytes assumed), portability across CPU tiers.",
+ "Trusted: internal/sm9/bn256 group and pairing operations (ghost-valued contracts), internal/bigmod, hash (H1/H2), GenerateUserPublicKey, master-key ScalarBaseMult, cryptobyte, EncrypterOpts interface contracts.",
+ "DESIGN.md §0.2, §4 C10")
+
 NOT_APPLICABLE = {
  "C02": "Not reached by the contract technique in this build: the SM4 round function (S-box tables, 32-bit rotations, XOR network) needs the bit-vector mode of the verifier, which exists only as a skeleton; the AES-NI/AVX assembly tiers are outside any Go-level contract. The Go wrappers around the SM4 assembly that cipher modes use are covered under C03. No other technique was substituted.",
  "C04": "GCM/CCM: table-driven GHASH and the fused SM4-GCM assembly need bit-vector reasoning over carry-less multiplication that the arith-mode VC generator cannot express; CCM's Go glue was planned but not reached in this build.",
